@@ -750,5 +750,33 @@ def r9(cx):
     cx.floor(n, 3, 'descriptors obtained and closed within one async function')
 
 
+@RS.rule('C09.R10', 'K-PASS', 'exec makes its redirections permanent whenever the shell survives it: once the arguments are accepted, every return of '
+         'the exec built-in - no operand, command not found, execve failed in an interactive shell - has asked for the redirections to be '
+         'kept (docs/src/builtins/exec.md; the property\'s one exception to "restored after the command")')
+def r10(cx):
+    F = cx.F
+    body = F.inlined(F.main_body('yash_builtin::exec::main'))
+    cx.fn(body.fn)
+    keep = Q.find_calls(body, [re.compile(r'builtin::Result::retain_redirs$')])
+    # the syntax-error exit returns what the error reporter yields (the command did not run at all)
+    rejected = Q.find_calls(body, [re.compile(r'::report_error$'), re.compile(r'::report::report_error$')])
+    parse = Q.find_calls(body, [re.compile(r'::parse_arguments$'), re.compile(r'::syntax::parse$')])
+    cx.require(parse, 'exec::main no longer parses its arguments with parse_arguments (anchor moved)')
+    cx.site('exec::main: retain_redirs x%d at %s; argument-error exits through report_error x%d' %
+            (len(keep), [body.loc(t) for _, t in keep], len(rejected)))
+    if not keep:
+        cx.violation('yash_builtin::exec::main', 'never-retains', 'the exec built-in never asks for its redirections to be kept: '
+                     '`exec >file` would be undone like any other command', loc=body.loc(body.d))
+        return
+    through = {b for b, _ in keep} | {b for b, _ in rejected}
+    path = Q.must_pass(body, [0], through)
+    if path is not None:
+        cx.violation('yash_builtin::exec::main', 'return-without-retain', 'the exec built-in can return without having asked for its '
+                     'redirections to be kept: `exec 3>log /no/such/utility` in an interactive shell (the shell survives the failed exec) '
+                     'would roll the redirection back, although exec.md says the redirections persist', loc=body.loc(body.blocks[path[-1]]['t']),
+                     path=Q.render_path(body, path))
+
+
 # --- explanation addendum (generated catalogue in DESIGN.md reads RS.explanation)
 RS.explanation += ' Added later: the target descriptor is saved before anything is opened (R1d); no descriptor the shell must close is held as a bare number across an await of a cancellable computation (R9, K-RES with yield terminators as cancellation points; three open findings).'
+RS.explanation += ' The exec built-in asks for its redirections to be kept on every return after its arguments were accepted (R10).'
